@@ -46,9 +46,10 @@ inductive Outcome
   | block
 deriving DecidableEq, Repr
 
-/-- number of bytes a raw read of a non-empty stream returns: the choice `k`, clamped to
-`1 ≤ · ≤ min n avail` -/
-def takeLen (n k avail : Nat) : Nat := max 1 (min k (min n avail))
+/-- number of bytes a raw read of a non-empty stream asks `List.take` for: the choice `k`, clamped
+to `1 ≤ · ≤ n` (`take` itself stops at the end of the pending bytes, so the result has
+`min (takeLen n k) avail` bytes) -/
+def takeLen (n k : Nat) : Nat := max 1 (min k n)
 
 /-- the assumed contract of `os.File.Read` (pty master), `net.Conn.Read` and the `crypto/ssh`
 channel reader, for a buffer of `n` bytes -/
@@ -57,7 +58,7 @@ def rawRead (n k : Nat) (s : Stream) : Outcome × Stream :=
   else if n = 0 then (.ret [] none, s)
   else match s.pending with
     | [] => if s.peerGone then (.ret [] (some .eof), s) else (.block, s)
-    | p => (.ret (p.take (takeLen n k p.length)) none, { s with pending := p.drop (takeLen n k p.length) })
+    | p => (.ret (p.take (takeLen n k)) none, { s with pending := p.drop (takeLen n k) })
 
 /-- `b := make([]byte, n)` after the reader copied `data` into its front -/
 def filled (n : Nat) (data : Bytes) : Bytes := data ++ List.replicate (n - data.length) 0
